@@ -83,7 +83,7 @@ RULE = ("cases = (operation, shape, dtype, data seed/flavour, chunking, axis sel
         "split_every, parameters).")
 ASSUMPTIONS = ["NumPy 2.x defines expected values, dtype and shape", "sync scheduler",
                "moment / topk / argtopk have no NumPy function: the reference is their documented definition"]
-BUDGET = {"quick": 45, "thorough": 540}
+BUDGET = {"quick": 40, "thorough": 540}
 FLOORS = {"quick": {"evaluations": 100, "distinct_nontrivial": 50}, "thorough": {"evaluations": 100, "distinct_nontrivial": 50}}
 EXHAUSTIVE_SPACE = ("all chunkings of shapes (4,) and (2,3) x {sum, max, mean, cumsum(sequential), cumsum(blelloch), argmin} "
                     "x all axis choices x keepdims x split_every in {2, None} x {int64 with ties, float64 with NaN}")
@@ -202,7 +202,7 @@ def cases(tier, seed):
                         yield dict(base, op="argmin", axis=axis, keepdims=kd, ses=[2, None])
     # ---- random part ------------------------------------------------------------------------
     ops = RED + ARG + ARG + CUM + CUM + TOPK + TOPK + MED + QUANT
-    n = 4400 if tier == "quick" else 110000
+    n = 3600 if tier == "quick" else 110000
     for _ in range(n):
         op = rng.choice(ops)
         fam = family(op)
